@@ -276,7 +276,7 @@ def cases(rng, tier):
     gf = sorted(GIT_PATHS)
     for i in range((10 if quick else 60) * 5):
         law = ["l1", "l2", "l3", "l4", "gen"][i % 5]
-        base = gen_git_tree(rng)
+        base = gen_git_tree(rng, law == "gen")
         if law == "l1":
             this, other = edit_git(rng, base, gf, rng.randint(1, 3)), base
         elif law == "l2":
@@ -288,7 +288,7 @@ def cases(rng, tier):
             k = rng.randint(1, len(gf) - 1)
             this, other = edit_git(rng, base, gf[:k], rng.randint(1, 3)), edit_git(rng, base, gf[k:], rng.randint(1, 3))
         else:
-            this, other = edit_git(rng, base, gf, rng.randint(1, 3)), edit_git(rng, base, gf, rng.randint(1, 3))
+            this, other = edit_git(rng, base, gf, rng.randint(1, 3), True), edit_git(rng, base, gf, rng.randint(1, 3), True)
         yield mk("git", "merge3", base, this, other, tag="g" + law)
     # criss-cross histories: Merge3Merger runs _entries_lca / _lca_multi_way
     for i in range((12 if quick else 80) * 5):
@@ -629,25 +629,27 @@ def git_texts(f):
             j(ls[:2] + [t + b"-Y\n"] + ls[3:])]
 
 
-def git_entry(rng, f):
-    k = rng.choice("ffffl")
+def git_entry(rng, f, fixed=False):
+    # fixed: the kind is a function of the path (see notes/C17.md, finding 6: kind clashes between the sides
+    # are merged by the git trees in a way the flat model does not follow)
+    k = ("l" if f == 4 else "f") if fixed else rng.choice("ffffl")
     if k == "f":
         return E(f, 0, GIT_PATHS[f], "f", rng.choice(git_texts(f)), rng.random() < 0.3)
     return E(f, 0, GIT_PATHS[f], "l", b"t%d-%d" % (f, rng.randint(1, 2)))
 
 
-def gen_git_tree(rng):
-    return [git_entry(rng, f) for f in sorted(GIT_PATHS) if rng.random() < 0.7]
+def gen_git_tree(rng, fixed=False):
+    return [git_entry(rng, f, fixed) for f in sorted(GIT_PATHS) if rng.random() < 0.7]
 
 
-def edit_git(rng, tree, fids, nops):
+def edit_git(rng, tree, fids, nops, fixed=False):
     d = tdict(tree)
     for _ in range(nops):
         f = rng.choice(fids)
         op = rng.choice(["del", "mod", "mod", "exe", "kind", "add"])
         if f not in d:
             if op in ("add", "mod", "kind"):
-                d[f] = git_entry(rng, f)
+                d[f] = git_entry(rng, f, fixed)
             continue
         e = d[f]
         if op == "del":
@@ -656,7 +658,7 @@ def edit_git(rng, tree, fids, nops):
             d[f] = E(f, 0, e[2], e[3], rng.choice(git_texts(f)) if e[3] == "f" else b"t%d-%d" % (f, rng.randint(1, 2)), e[5])
         elif op == "exe" and e[3] == "f":
             e[5] = not e[5]
-        elif op == "kind":
+        elif op == "kind" and not fixed:
             n = git_entry(rng, f)
             d[f] = n
     return tlist(d)
